@@ -1,6 +1,9 @@
-\* GF(2^4), x^4 + x + 1: all 256 pairs (a, b), third operand quantified over all 16 elements
+\* GF(2^4), x^4 + x + 1: every element as first operand; second and third operand quantified over all 16 elements
 CONSTANTS M = 4
 LowN = 3
+ASel = 0
+ASeed = 0
 INIT Init
 NEXT Next
-INVARIANTS Closed Commutative Associative Distributive Neutral Inverses NoZeroDivisor ZeroHasNoInverse PowIsRepeatedProduct
+CHECK_DEADLOCK FALSE
+INVARIANTS TablesClosed Commutative Associative Distributive Neutral Inverses NoZeroDivisor ZeroHasNoInverse PowIsRepeatedProduct
